@@ -34,6 +34,26 @@ class RegionError(Exception):
     pass
 
 
+class _Missing:
+    """A variable the current harness does not have: every comparison with it
+    is False, so a region only applies where its variables exist."""
+
+    def _f(self, o):
+        return False
+
+    __lt__ = __le__ = __gt__ = __ge__ = __eq__ = __ne__ = _f
+    __hash__ = object.__hash__
+
+    def __bool__(self):
+        return False
+
+    def __neg__(self):
+        return self
+
+
+_MISSING = _Missing()
+
+
 def eval_region(expr, env):
     """Evaluate a region expression (python syntax subset) over *env* whose
     values are proxies, numbers, strings or bools.  Returns SymBool or bool."""
@@ -53,7 +73,9 @@ def eval_region(expr, env):
             out = []
             for op, rn in zip(n.ops, n.comparators):
                 right = ev(rn)
-                if isinstance(op, ast.In):
+                if left is _MISSING or right is _MISSING:
+                    r = False
+                elif isinstance(op, ast.In):
                     r = core.Or(*[core.same(left, x) for x in right]) if right else False
                 elif isinstance(op, ast.NotIn):
                     r = core.Not(core.Or(*[core.same(left, x) for x in right])) if right else True
@@ -78,7 +100,7 @@ def eval_region(expr, env):
             if n.id in ("True", "False"):
                 return n.id == "True"
             if n.id not in env:
-                raise KeyError(n.id)
+                return _MISSING
             return env[n.id]
         if isinstance(n, ast.Constant):
             return n.value
@@ -141,10 +163,7 @@ def _known_callables(findings, ob):
             env = dict(ob.case)
             env.update(getattr(eng, "vars", {}))
             env.update(getattr(eng, "derived", {}))
-            try:
-                return eval_region(expr, env)
-            except KeyError:
-                return False  # region mentions a variable this harness does not have
+            return eval_region(expr, env)
 
         out.append((f["id"], reg))
     return out
@@ -153,10 +172,7 @@ def _known_callables(findings, ob):
 def _region_concrete(f, ob, values):
     env = dict(ob.case)
     env.update(values)
-    try:
-        return bool(eval_region(f["region"], env))
-    except KeyError:
-        return False
+    return bool(eval_region(f["region"], env))
 
 
 def _jsonable(v):
